@@ -110,6 +110,7 @@ type Machine struct {
 	MaxDepth int
 	GoInline bool
 	Verbose  bool
+	Thorough bool
 	Prefix   string
 
 	// per path
@@ -273,7 +274,7 @@ func (m *Machine) decide(conds []*smt.Term, site ssa.Instruction) int {
 			conds[i] = smt.False
 		}
 	}
-	if site != nil {
+	if site != nil { // decisions made inside intrinsics (no site) are bounded by the intrinsics themselves
 		m.siteCnt[site]++
 		if m.siteCnt[site] > m.curUnwind {
 			m.end("unwind", fmt.Sprintf("more than %d symbolic decisions at %s", m.curUnwind, m.P.Fset.Position(site.Pos())))
@@ -794,6 +795,7 @@ func (m *Machine) recv(ch *ChanV, commaOk bool, t types.Type) Value {
 
 func (m *Machine) selectOp(fr *frame, ins *ssa.Select) Value {
 	var ready []int
+	definitely := false
 	for i, st := range ins.States {
 		ch := m.get(fr, st.Chan).(*ChanV)
 		if ch.C == nil {
@@ -804,14 +806,16 @@ func (m *Machine) selectOp(fr *frame, ins *ssa.Select) Value {
 			continue
 		}
 		c := ch.C
-		if len(c.Buf) > 0 || c.Closed || c.Kind == "ticker" || c.Kind == "timer" ||
-			(c.Kind == "ctxdone" && (c.Ctx.Cancelled || c.Ctx.HasDL)) {
+		if len(c.Buf) > 0 || c.Closed || (c.Kind == "ctxdone" && c.Ctx.Cancelled) {
+			definitely = true
+			ready = append(ready, i)
+		} else if c.Kind == "ticker" || c.Kind == "timer" || (c.Kind == "ctxdone" && c.Ctx.HasDL) {
 			ready = append(ready, i)
 		}
 	}
 	n := len(ready)
-	if !ins.Blocking {
-		n++ // default branch
+	if !ins.Blocking && !definitely {
+		n++ // default branch is taken only when no case is certainly ready
 	}
 	if n == 0 {
 		m.end("blocked", "select with no ready case")
